@@ -13,17 +13,17 @@ import (
 
 // XN is a node of an abstract XML document (prefixed names, declarations, text segments).
 type XN struct {
-	Kind   string // elem text comment pi xmldecl doctype ws
+	Kind       string // elem text comment pi xmldecl doctype ws
 	AttrsFirst bool
-	HasPfx bool
-	Pfx    string
-	Local  string
-	Decls  [][2]string // prefix ("" = default), uri
-	Attrs  [][3]string // prefix ("" = none), local, value
-	Kids   []XN
-	Segs   []string // text segments
-	Seg    []string // how each segment is written: plain, cdata
-	Val    string   // comment text / pi data
+	HasPfx     bool
+	Pfx        string
+	Local      string
+	Decls      [][2]string // prefix ("" = default), uri
+	Attrs      [][3]string // prefix ("" = none), local, value
+	Kids       []XN
+	Segs       []string // text segments
+	Seg        []string // how each segment is written: plain, cdata
+	Val        string   // comment text / pi data
 }
 
 var xmlTexts = []string{"a", "1", "x y", "é", "𝄞", "<", "&", "]]", "  pad  ", "A", "\"q\"", "'", "10", "-3.5", "line1\nline2", "t\tt"}
@@ -31,6 +31,9 @@ var xmlTexts = []string{"a", "1", "x y", "é", "𝄞", "<", "&", "]]", "  pad  "
 type xmlGen struct {
 	r      *Rng
 	budget int
+	// collide: names and URIs chosen so that different expanded names have the same concatenation
+	// URI+local ({urn:a}bc, {urn:ab}c, {urn:}abc; seeded change C09-8 interned element names by that key)
+	collide bool
 }
 
 func (g *xmlGen) scopeHas(scope map[string]string, p string) bool { _, ok := scope[p]; return ok }
@@ -39,6 +42,9 @@ func (g *xmlGen) elem(depth int, scope map[string]string) XN {
 	r := g.r
 	g.budget--
 	n := XN{Kind: "elem", Local: Pick(r, []string{"a", "b", "c", "item", "x-1", "n.m", "r"}), AttrsFirst: r.Chance(1, 3)}
+	if g.collide {
+		n.Local = Pick(r, []string{"bc", "c", "abc", "b", "c"})
+	}
 	sc := map[string]string{}
 	for k, v := range scope {
 		sc[k] = v
@@ -55,6 +61,9 @@ func (g *xmlGen) elem(depth int, scope map[string]string) XN {
 		}
 		used[p] = true
 		u := Pick(r, UriPool)
+		if g.collide {
+			u = Pick(r, []string{"urn:a", "urn:ab", "urn:", "urn:a"})
+		}
 		if p == "" && sc[""] != "" && r.Chance(1, 3) {
 			u = "" // undeclare the default namespace
 		}
@@ -329,7 +338,7 @@ func GenXmlFamily(w *Writer, r *Rng, t Tier) error {
 	n := t.Docs * t.PerDoc / 2
 	for i := 0; i < n; i++ {
 		cr := r.Fork()
-		g := &xmlGen{r: cr, budget: 4 + cr.Intn(20)}
+		g := &xmlGen{r: cr, budget: 4 + cr.Intn(20), collide: i%6 == 5}
 		var top []XN
 		gap := func() {
 			if w := Pick(cr, []string{"", "", "\n", "  ", "\n\t"}); w != "" {
